@@ -1,4 +1,5 @@
 import OdfModel.Abs
+import OdfModel.Traverse
 import OdfModel.Drv.Util
 namespace Odf.Drv.Table
 open Odf.Rle Odf.Table Odf.Drv
@@ -218,5 +219,22 @@ def handle (r : RowObj) : List String → RowObj × String
     | some none => (r, "err value")
     | some (some r') => (r', encRow r')
   | _ => (r, "bad-op")
+
+end Odf.Drv.Row
+
+namespace Odf.Drv.Row
+open Odf.Rle Odf.Table Odf.Drv
+
+def encTrav (l : List (Nat × Nat × Option Nat)) : String :=
+  if l.isEmpty then "ok -" else "ok " ++ " ".intercalate (l.map (fun p => s!"{p.1}:{p.2.1}:{match p.2.2 with | none => "N" | some k => toString k}"))
+
+/-- `row trav <start|N> <end|N>` on the current row object -/
+def handleTrav (r : RowObj) : List String → String
+  | [s, e] =>
+    match decOptNat s, decOptNat e with
+    | some none, some none => encTrav (rowTraverseAll r)
+    | some so, some eo => encTrav (rowTraverseRange r (so.getD 0) eo)
+    | _, _ => "bad-op"
+  | _ => "bad-op"
 
 end Odf.Drv.Row
